@@ -15,8 +15,11 @@ VERIF = os.path.dirname(os.path.dirname(os.path.abspath(__file__)))
 REPO = os.environ.get("VERIF_REPO", "/repo")
 INC = os.path.join(REPO, "include")
 BUILD = os.path.join(VERIF, "build")
-EVID = os.path.join(VERIF, "evidence")
-REPLAYS = os.path.join(VERIF, "replays")
+# evidence/ and replays/ describe /repo itself; a run against another tree (VERIF_REPO, used to try seeded changes) writes
+# its artefacts under build/ so that it can never be mistaken for, or committed as, evidence about /repo
+_OTHER_TREE = os.path.realpath(REPO) != "/repo"
+EVID = os.path.join(VERIF, "build", "other-tree", "evidence") if _OTHER_TREE else os.path.join(VERIF, "evidence")
+REPLAYS = os.path.join(VERIF, "build", "other-tree", "replays") if _OTHER_TREE else os.path.join(VERIF, "replays")
 SRC = os.path.join(VERIF, "src")
 NCPU = min(16, os.cpu_count() or 4)
 
